@@ -5,6 +5,7 @@ package main
 // the real library.
 
 import (
+	"os"
 	"fmt"
 	"regexp"
 	"strconv"
@@ -32,6 +33,9 @@ func errorsIs(e, t *Term) *Term {
 	if e.Op == "mk" && e.Args[0].IsInt() && e.Args[0].Int.Sign() == 0 {
 		return TFalse
 	}
+	if e.Op == "ite" {
+		return Ite(e.Args[0], errorsIs(e.Args[1], t), errorsIs(e.Args[2], t))
+	}
 	if ws, ok := errWraps[e]; ok {
 		ds := []*Term{Eq(e, t)}
 		for _, w := range ws {
@@ -48,6 +52,9 @@ func errorsIs(e, t *Term) *Term {
 	if crdErrObjs[e] {
 		return Eq(e, t)
 	}
+	if os.Getenv("GOVC_DEBUG") == "5" {
+		fmt.Fprintf(os.Stderr, "errorsIs generic: e=%s t=%s wraps=%v leaf=%v\n", truncate(e.String(), 120), truncate(t.String(), 60), errWraps[e] != nil, errLeaf[e])
+	}
 	return Or(And(Eq(e, t), Neq(e, zeroTerm(SIface))), App("err_is", SBool, e, t))
 }
 
@@ -59,6 +66,10 @@ func (v *Verifier) newError(st *State, what string) *Term {
 func freshError(st *State, name string) *Term {
 	e := Fresh(name, SIface)
 	st.assume(Gt(Sel(e, 0), IntLit(0)))
+	// an error made by a library is none of the error objects crd makes with errors.New
+	for obj := range crdErrObjs {
+		st.assume(Neq(e, obj))
+	}
 	return e
 }
 
@@ -125,13 +136,33 @@ func (v *Verifier) external(st *State, in *ssa.Call, fn *ssa.Function, args []*T
 		var ws []*Term
 		if args[0].Op == "str" && strings.Contains(args[0].Str, "%w") {
 			if elems, ok := sliceElems(st, args[1], SIface); ok {
-				for _, x := range elems {
-					// operands are boxed as any; error values keep their Iface
-					ws = append(ws, x)
+				// the operands of the %w verbs (operands are boxed as any; error values keep their Iface)
+				idx := 0
+				f := args[0].Str
+				for i := 0; i+1 < len(f); i++ {
+					if f[i] != '%' {
+						continue
+					}
+					i++
+					if f[i] == '%' {
+						continue
+					}
+					for i < len(f) && strings.ContainsRune("+-# 0123456789.", rune(f[i])) {
+						i++
+					}
+					if i < len(f) {
+						if f[i] == 'w' && idx < len(elems) {
+							ws = append(ws, elems[idx])
+						}
+						idx++
+					}
 				}
 			}
 		}
 		errWraps[e] = ws
+		if os.Getenv("GOVC_DEBUG") == "5" {
+			fmt.Fprintf(os.Stderr, "fmt.Errorf -> %s wraps %d\n", e.String(), len(ws))
+		}
 		return set(e)
 	case "errors.Is":
 		return set(errorsIs(args[0], args[1]))
